@@ -82,10 +82,17 @@ fn one_case(sh: &mut Shard, tape: &[u32], cfg: &GenCfg) -> Result<(), Violation>
     };
     let inputs = json!({"program": r.text, "expected_stdout": exp.stdout, "expected_end": ref_end_json(&exp.end), "expected_error_sites": sites, "triggers": exp.triggers, "ref_statements": exp.statements, "expected_globals": res.globals});
     let attributed = |default: &str| -> String { exp.triggers.first().cloned().unwrap_or(default.to_string()) };
-    let out = match impl_run::run_src(&r.text, &RunOpts::budget(budget)) {
+    // every parameter, local and global must hold a value of its own type at every statement boundary
+    // ("passed by value after conversion to the parameter type")
+    let mut opts = RunOpts::budget(budget);
+    opts.typed_vars = true;
+    let out = match impl_run::run_src(&r.text, &opts) {
         Err(e) => return Err(Violation::new(attributed(&format!("c03-rejected:{}", e.class())), "well-formed generated program with procedures rejected or crashed before running", inputs).exp_obs("accepted", e.to_json())),
         Ok(o) => o,
     };
+    if let Some(a) = &out.typed_anomaly {
+        return Err(Violation::new(attributed("c03-typed-variable"), format!("a variable or parameter holds a value that is not of its declared type: {}", a), inputs).exp_obs("every variable holds a value of its type", a.clone()));
+    }
     if let End::Budget = out.end {
         return Err(Violation::new(attributed("c03-nontermination"), "implementation exceeded the instruction budget derived from the terminating reference run", inputs));
     }
